@@ -15,8 +15,9 @@
 // judged only if that set has one element (then PEG and commit semantics agree as well), all other
 // pairs are excluded and counted.
 //
-// A mismatch is minimised before it is reported: proper sub-expressions of the root rule and
-// suffixes of the input are tried as long as one still shows a judged mismatch; the key is
+// A mismatch is minimised before it is reported (greedy reduction: replace a node by one of its
+// children or by a plain leaf, drop a child of an n-ary node, drop an unused rule, delete an input
+// token, as long as the pair still shows a judged mismatch); the key is
 // mismatch-kind:root-operator of the minimal grammar.
 package main
 
@@ -149,58 +150,117 @@ func judge(g *ref.Grammar, cl *tpl.Compiler, toks []ref.Token, input string) ver
 	return r
 }
 
-// subExprs lists the proper sub-expressions of e, outermost first.
-func subExprs(e *ref.Expr, out *[]*ref.Expr) {
+var plainLeaves = []*ref.Expr{ref.L("a"), ref.T("INT"), ref.L(",")}
+
+// variants yields every expression obtained from e by one reduction step somewhere inside it:
+// a node replaced by one of its children, by a plain leaf, or an n-ary node losing one child.
+func variants(e *ref.Expr, rules []ref.Rule, yield func(*ref.Expr)) {
 	for _, k := range e.Kids {
-		*out = append(*out, k)
+		yield(k)
 	}
-	for _, k := range e.Kids {
-		subExprs(k, out)
+	if e.K == ref.Ref { // inline a non-recursive rule
+		for _, r := range rules {
+			if r.Name == e.S && !r.Body.Mentions(r.Name) {
+				yield(r.Body)
+			}
+		}
+	}
+	if len(e.Kids) > 0 || e.K == ref.Ref {
+		for _, l := range plainLeaves {
+			yield(l)
+		}
+	}
+	if (e.K == ref.Seq || e.K == ref.Alt) && len(e.Kids) > 2 {
+		for i := range e.Kids {
+			kids := append(append([]*ref.Expr(nil), e.Kids[:i]...), e.Kids[i+1:]...)
+			yield(&ref.Expr{K: e.K, Kids: kids})
+		}
+	}
+	for i, k := range e.Kids {
+		variants(k, rules, func(nk *ref.Expr) {
+			kids := append([]*ref.Expr(nil), e.Kids...)
+			kids[i] = nk
+			yield(&ref.Expr{K: e.K, S: e.S, Kids: kids})
+		})
 	}
 }
 
-// minimise returns a smallest (grammar, input) that still shows a judged mismatch of any kind.
+// minimise greedily applies reduction steps (grammar: see variants, drop an unreferenced rule;
+// input: delete one token) as long as the pair still shows a judged mismatch of any kind.
 func minimise(k Case) (Case, verdict, bool) {
 	cur := k
 	var curV verdict
 	have := false
-	for step := 0; step < 20; step++ {
-		var subs []*ref.Expr
-		subExprs(cur.G.Rules[0].Body, &subs)
-		subs = append([]*ref.Expr{cur.G.Rules[0].Body}, subs...) // same grammar, shorter input
+	try := func(g *ref.Grammar, words []string, glue []bool) bool {
+		for _, r := range g.Rules { // every reference must stay defined
+			for _, n := range []string{"doc", "aux"} {
+				if r.Body.Mentions(n) && (n == "aux" && len(g.Rules) < 2) {
+					return false
+				}
+			}
+		}
+		if len(ref.Analyze(g).Classes()) > 0 {
+			return false
+		}
+		text := g.Text()
+		cl, err, f := compile(text)
+		if f != nil || err != nil {
+			return false
+		}
+		toks, input := ref.Toks(words, glue)
+		if !scanOK(toks, input) {
+			return false
+		}
+		v := judge(g, &cl, toks, input)
+		if v.class != "mismatch" {
+			return false
+		}
+		cur = Case{Text: text, G: g, Words: append([]string(nil), words...), Glue: append([]bool(nil), glue...), Input: input}
+		curV, have = v, true
+		return true
+	}
+	for step := 0; step < 60; step++ {
 		found := false
-	search:
-		for si, e := range subs {
-			g2 := &ref.Grammar{Rules: []ref.Rule{{Name: "doc", Body: e}}}
-			for _, r := range cur.G.Rules[1:] {
-				g2.Rules = append(g2.Rules, r)
-			}
-			if len(ref.Analyze(g2).Classes()) > 0 {
-				continue
-			}
-			text := g2.Text()
-			cl, err, f := compile(text)
-			if f != nil || err != nil {
-				continue
-			}
-			for from := 0; from <= len(cur.Words); from++ {
-				for to := len(cur.Words); to >= from; to-- {
-					if si == 0 && from == 0 && to == len(cur.Words) {
-						continue
-					}
-					words := cur.Words[from:to]
-					var glue []bool
-					if len(cur.Glue) > 0 && len(words) > 1 {
-						glue = cur.Glue[from : to-1]
-					}
-					toks, input := ref.Toks(words, glue)
-					if v := judge(g2, &cl, toks, input); v.class == "mismatch" {
-						cur = Case{Text: text, G: g2, Words: append([]string(nil), words...), Glue: append([]bool(nil), glue...), Input: input}
-						curV, have, found = v, true, true
-						break search
+		// input: delete one token (the gap flags of its neighbours merge to "blank")
+		for i := 0; i < len(cur.Words) && !found; i++ {
+			words := append(append([]string(nil), cur.Words[:i]...), cur.Words[i+1:]...)
+			var glue []bool
+			if len(cur.Glue) > 0 && len(words) > 1 {
+				for j := 0; j < len(cur.Words)-1; j++ {
+					switch {
+					case j == i-1 && i < len(cur.Words)-1:
+						glue = append(glue, false)
+					case j == i-1 || j == i:
+					default:
+						glue = append(glue, cur.Glue[j])
 					}
 				}
 			}
+			found = try(cur.G, words, glue)
+		}
+		// grammar: drop an unreferenced aux rule
+		if !found && len(cur.G.Rules) == 2 && !cur.G.Rules[0].Body.Mentions("aux") {
+			found = try(&ref.Grammar{Rules: cur.G.Rules[:1]}, cur.Words, cur.Glue)
+		}
+		// grammar: one reduction step inside one rule body
+		for ri := 0; ri < len(cur.G.Rules) && !found; ri++ {
+			g0 := cur.G
+			w0, gl0 := cur.Words, cur.Glue
+			variants(g0.Rules[ri].Body, g0.Rules, func(nb *ref.Expr) {
+				rules := append([]ref.Rule(nil), g0.Rules...)
+				rules[ri].Body = nb
+				g2 := &ref.Grammar{Rules: rules}
+				// with the whole input or any contiguous part of it, longest first
+				for n := len(w0); n >= 0 && !found; n-- {
+					for from := 0; from+n <= len(w0) && !found; from++ {
+						var glue []bool
+						if len(gl0) > 0 && n > 1 {
+							glue = gl0[from : from+n-1]
+						}
+						found = try(g2, w0[from:from+n], glue)
+					}
+				}
+			})
 		}
 		if !found {
 			break
@@ -209,12 +269,18 @@ func minimise(k Case) (Case, verdict, bool) {
 	return cur, curV, have
 }
 
+// minimisations left in this worker process; afterwards mismatches are reported as found.
+var minimiseBudget = 150
+
 func report(k Case, v verdict) *engine.Failure {
-	mk, mv, ok := minimise(k)
-	if !ok {
-		mk, mv = k, v
+	mk, mv, root := k, v, "(not minimised)"
+	if minimiseBudget > 0 {
+		minimiseBudget--
+		if k2, v2, ok := minimise(k); ok {
+			mk, mv = k2, v2
+		}
+		root = mk.G.Rules[0].Body.K.String()
 	}
-	root := mk.G.Rules[0].Body.K.String()
 	if mv.fail != nil {
 		f := mv.fail
 		f.Detail = fmt.Sprintf("grammar: %q input: %q\nREADME: %s\n%s", mk.Text, mk.Input, mv.want, f.Detail)
